@@ -304,6 +304,11 @@ def check_c07(prog, rep, tier, cfg):
             rep.check(order, R, "order:ignorers<FormattedTokens<formatters", "ignorers / FormattedTokens::new_from_tokens / formatters are out of order")
         else:
             rep.fail(R, "format_into_buf:shape", "format_into_buf: expected one ignore_tokens, one new_from_tokens, one formatter call (found %d/%d/%d)" % (len(ig), len(nf), len(fm)))
+        # the private `ignored` flag cannot be named outside its module, but a whole-value store through `&mut FormattingData` would reset it
+        from util import whole_value_stores
+        wv = whole_value_stores(prog, "pasfmt_core::lang::FormattingData")
+        rep.check(not wv, "C07.b", "no-whole-value-store:FormattingData", "a FormattingData is overwritten as a whole (which also resets its ignore mark): %s" % [(short(b.npath), what) for b, _, what in wv[:3]],
+                  where=wv[0][1] if wv else None, instance={"whole_value_stores": len(wv)})
         # C07.e line voiding uses all(is_marked) on the ignore marker
         R2 = "C07.e"
         va = fib.calls_to(LANG + "LogicalLine::void_and_drain")
@@ -354,6 +359,8 @@ def check_c07(prog, rep, tier, cfg):
                 if any(x[0] == "call" and x[1].endswith("is_ignored") and x[3] is True for x in conds):
                     cnt_reads.append(f)
         rep.check(not cnt_reads, R, "ignored-arm-reads-no-counter", "the ignored arm of reconstruct reads formatting counters: %s" % cnt_reads)
+    import c02
+    c02.line_break_test_of_safety_net(prog, rep, "C07.c")
     # C07.d both ignorers registered; asm lines fully marked; wrapper skips asm lines
     R = "C07.d"
     mf = prog.body("pasfmt::make_formatter")
@@ -579,7 +586,8 @@ def check_c01f(prog, rep, R="C01.f"):
         if not rep.check(len(makers) == 1, R, "one-builder:" + short(name), "%s builds %d strings (one reviewed)" % (short(name), len(makers))):
             continue
         pcs = slices.pieces_of(prog, b, makers[0], ev)
-        ok, desc, problems = slices.check_partition(b, pcs, ev)
+        # trailing blanks may be cut where the property allows it: everywhere for C01 (blanks are not protected), for C02 only in line comments
+        ok, desc, problems = slices.check_partition(b, pcs, ev, allow_trailing_trim=(not R.startswith("C02") or name.endswith("format_line_comment")))
         unstable = slices.unstable_var_reads(b, mark)
         rep.check(ok and not unstable and len([p for p in pcs if p[1] != "blank"]) >= 2, R, "partition:" + short(name),
                   "the text built in %s is not a partition of the token's text: %s%s" % (short(name), "; ".join(problems), ("; variables re-assigned after being read: %s" % unstable) if unstable else ""),
